@@ -206,6 +206,7 @@ func runAuditProc(failAt int, ops []string, after int) string {
 		case result = <-done:
 			finished = true
 		case <-time.After(20 * time.Second):
+			noteHang()
 		}
 	}
 	settle()
@@ -270,6 +271,7 @@ func runAuditProc(failAt int, ops []string, after int) string {
 		select {
 		case result = <-done:
 		case <-time.After(20 * time.Second):
+			noteHang()
 			result = errors.New("Read did not return after cancellation")
 		}
 	}
@@ -289,6 +291,10 @@ func init() {
 			failAt := -1
 			if f[1] != "-" {
 				failAt, _ = strconv.Atoi(f[1])
+			}
+			if overHangBudget() {
+				fmt.Fprintf(out, "%s !stall:skipped-after-hangs\n", f[0])
+				continue
 			}
 			func() {
 				defer func() {
